@@ -15,8 +15,8 @@ def mut(name, checks, file, old, new, count=1, note=""):
 
 # ---- C06 / C01
 mut("c06-no-resend-on-connack-v4", ["C06", "C01", "C16"], CORE,
-    "                    if packet.session_present() {\n                        let resent = self.send_stored();",
-    "                    if packet.session_present() && false {\n                        let resent = self.send_stored();", count=2,
+    "                    if packet.session_present() || self.new_session_at_connect {\n                        // (after a clean start the store only holds what was published since\n                        // the CONNECT: it belongs to the new session and goes out now)\n                        let resent = self.send_stored();",
+    "                    if false {\n                        let resent = self.send_stored();", count=2,
     note="stored packets are not retransmitted when CONNACK(session present) is received")
 mut("c06-stored-copy-without-dup", ["C06", "C16"], CORE,
     "                let store_packet = packet.clone().set_dup(true);\n                self.store.add(store_packet.try_into().unwrap()).unwrap();\n            } else {\n                release_packet_id_if_send_error = Some(packet_id);\n            }\n            if packet.qos() == Qos::ExactlyOnce {\n                self.pid_pubrec.insert(packet_id);\n            } else {\n                self.pid_puback.insert(packet_id);\n            }\n        } else if self.status != ConnectionStatus::Connected {\n            events.push(GenericEvent::NotifyError(MqttError::PacketNotAllowedToSend));\n            return events;\n        }\n\n        if self.status == ConnectionStatus::Connected {\n            events.push(GenericEvent::RequestSendPacket {\n                packet: packet.into(),\n                release_packet_id_if_send_error,\n            });\n            self.send_post_process(&mut events);\n        }\n\n        events\n    }\n\n    pub(crate) fn process_send_v5_0_publish(",
@@ -55,8 +55,8 @@ mut("c09-no-reset-after-zero-length", ["C09", "C05", "C01"], "src/mqtt/connectio
     note="zero-length packets do not reset the header buffer")
 # ---- C10
 mut("c10-publish-recv-survives", ["C10", "C12"], CORE,
-    "        self.topic_alias_recv = None;\n        self.publish_recv.clear();\n        self.need_store = false;",
-    "        self.topic_alias_recv = None;\n        self.need_store = false;",
+    "        self.publish_recv.clear();\n",
+    "", count=2,
     note="inbound flow-control set survives into the next connection")
 # ---- C12
 mut("c12-inbound-off-by-one", ["C12", "C07"], CORE,
@@ -130,8 +130,8 @@ mut("c18-topic-alias-zero", ["C18", "C04", "C05"], "src/mqtt/packet/property.rs"
     note="Topic Alias 0 accepted")
 # ---- C19
 mut("c19-close-before-disconnect-v5", ["C19", "C15"], CORE,
-    "        self.status = ConnectionStatus::Disconnected;\n        self.cancel_timers(&mut events);\n        events.push(GenericEvent::RequestSendPacket {\n            packet: packet.into(),\n            release_packet_id_if_send_error: None,\n        });\n        events.push(GenericEvent::RequestClose);\n\n        events\n    }\n\n    pub(crate) fn process_send_v5_0_auth(",
-    "        self.status = ConnectionStatus::Disconnected;\n        self.cancel_timers(&mut events);\n        events.push(GenericEvent::RequestClose);\n        events.push(GenericEvent::RequestSendPacket {\n            packet: packet.into(),\n            release_packet_id_if_send_error: None,\n        });\n\n        events\n    }\n\n    pub(crate) fn process_send_v5_0_auth(",
+    "        self.apply_disconnect_session_expiry(packet.props());\n        self.status = ConnectionStatus::Disconnected;\n        self.cancel_timers(&mut events);\n        events.push(GenericEvent::RequestSendPacket {\n            packet: packet.into(),\n            release_packet_id_if_send_error: None,\n        });\n        events.push(GenericEvent::RequestClose);\n",
+    "        self.apply_disconnect_session_expiry(packet.props());\n        self.status = ConnectionStatus::Disconnected;\n        self.cancel_timers(&mut events);\n        events.push(GenericEvent::RequestClose);\n        events.push(GenericEvent::RequestSendPacket {\n            packet: packet.into(),\n            release_packet_id_if_send_error: None,\n        });\n",
     note="v5 DISCONNECT: close requested before the packet")
 mut("c19-pingresp-timeout-no-close-v4", ["C19", "C15"], CORE,
     "            TimerKind::PingrespRecv => {\n                // Reset timer flag\n                self.pingresp_recv_set = false;\n\n                match self.protocol_version {\n                    Version::V3_1_1 => {\n                        // V3.1.1: Close connection\n                        events.push(GenericEvent::RequestClose);\n                    }",
@@ -175,11 +175,11 @@ mut("c10-receive-maximum-survives", ["C10", "C12"], CORE,
     note="(equivalent since the repair 'notify_closed() forgets the peer's Receive Maximum': the value is already gone when the next CONNECT runs) NEGATIVE CONTROL - no check may alarm")
 mut("c10-server-keep-alive-survives", ["C10", "C15"], CORE,
     "        self.pingreq_keep_alive_ms = 0;\n        self.pingreq_server_keep_alive_ms = None;",
-    "        self.pingreq_keep_alive_ms = 0;",
+    "        self.pingreq_keep_alive_ms = 0;", count=2,
     note="Server Keep Alive of the previous connection overrides the next CONNECT's keep alive")
 mut("c10-recv-size-limit-survives", ["C10", "C14"], CORE,
-    "        self.maximum_packet_size_send = MQTT_PACKET_SIZE_NO_LIMIT;\n        self.maximum_packet_size_recv = MQTT_PACKET_SIZE_NO_LIMIT;\n\n        // Set status to disconnected",
-    "        self.maximum_packet_size_send = MQTT_PACKET_SIZE_NO_LIMIT;\n\n        // Set status to disconnected",
+    "        // Reset packet size limits to MQTT protocol maximum\n        self.maximum_packet_size_send = MQTT_PACKET_SIZE_NO_LIMIT;\n        self.maximum_packet_size_recv = MQTT_PACKET_SIZE_NO_LIMIT;\n",
+    "        // Reset packet size limits to MQTT protocol maximum\n        self.maximum_packet_size_send = MQTT_PACKET_SIZE_NO_LIMIT;\n",
     note="the locally announced Maximum Packet Size of the previous connection is still enforced on the next one")
 mut("c10-any-role-keeps-side", ["C10", "C15", "C17"], CORE,
     "        self.pid_unsuback.clear();\n        self.is_client = is_client;",
